@@ -253,7 +253,54 @@ func (x *Exec) initialHeap(st *State, key, sort string) Val {
 		x.prog.tmpInit[x][key] = v
 	}
 	st.heap[key] = v
+	if !ok && strings.HasPrefix(key, "H:") {
+		x.allocAxioms(v, strings.TrimPrefix(key, "H:"))
+	}
 	return v
+}
+
+// allocAxioms: at function entry every pointer stored in the heap refers to an object that
+// already exists (reference below the allocation frontier), so later allocations cannot alias it.
+func (x *Exec) allocAxioms(h Val, elemSort string) {
+	inf := x.vc.info(elemSort)
+	if inf == nil || inf.Kind != kStruct {
+		return
+	}
+	topv, ok := x.prog.tmpInit[x]["top"]
+	if !ok {
+		return
+	}
+	isPtr := func(t types.Type) bool {
+		if t == nil {
+			return false
+		}
+		_, ok := t.Underlying().(*types.Pointer)
+		return ok
+	}
+	for _, f := range inf.Fields {
+		acc := fmt.Sprintf("(%s__%s (select %s r!a))", elemSort, sanitize(f.Name), h.T)
+		switch {
+		case isPtr(f.GoT):
+			x.vc.fact(fmt.Sprintf("(forall ((r!a Int)) (! (and (<= 0 %s) (< %s %s)) :pattern (%s)))", acc, acc, topv.T, acc))
+		default:
+			fi := x.vc.info(f.Sort)
+			if fi == nil {
+				continue
+			}
+			switch fi.Kind {
+			case kMap:
+				if mt, ok := f.GoT.Underlying().(*types.Map); ok && isPtr(mt.Elem()) {
+					el := fmt.Sprintf("(select (%s_val %s) k!a)", f.Sort, acc)
+					x.vc.fact(fmt.Sprintf("(forall ((r!a Int) (k!a %s)) (! (and (<= 0 %s) (< %s %s)) :pattern (%s)))", fi.Key, el, el, topv.T, el))
+				}
+			case kSlice:
+				if st, ok := f.GoT.Underlying().(*types.Slice); ok && isPtr(st.Elem()) {
+					el := fmt.Sprintf("(select (%s_arr %s) i!a)", f.Sort, acc)
+					x.vc.fact(fmt.Sprintf("(forall ((r!a Int) (i!a %s)) (! (and (<= 0 %s) (< %s %s)) :pattern (%s)))", x.vc.intSort(), el, el, topv.T, el))
+				}
+			}
+		}
+	}
 }
 
 func (x *Exec) lookupHeap(st *State, key, sort string) Val {
@@ -853,6 +900,12 @@ func (x *Exec) finishReturn(st *State, vals []Val) {
 		out[i] = st.vars[r]
 	}
 	rs := &retState{st: st, vals: out}
+	if !inl && x.dry == 0 {
+		// reachability probe for this return (informational: reported as UNREACHABLE when unsat)
+		x.counts["vacuity.ret"]++
+		o := &Obl{Name: fmt.Sprintf("%s#vacuity.ret.%d", x.fname, x.counts["vacuity.ret"]), Class: "vacuity-ret", PC: st.pc, Goal: "false", Func: x.fname, Vacuity: true, Pos: x.posn(x.curPos), Desc: "this return is reachable"}
+		x.vc.addObl(o)
+	}
 	if inl {
 		x.inRets[len(x.inRets)-1] = append(x.inRets[len(x.inRets)-1], rs)
 	} else {
